@@ -15,6 +15,7 @@
 package functioncontracts
 
 import (
+	"go/constant"
 	"go/token"
 	"go/types"
 
@@ -334,19 +335,44 @@ func branch(b *ssa.BasicBlock) (*ssa.BasicBlock, *ssa.BasicBlock, *ssa.BinOp) {
 	if !ok {
 		return nil, nil, nil
 	}
-	binOp, ok := ifInstr.Cond.(*ssa.BinOp)
-	// Check only one operand is sufficient since the two operands must have the same type.
-	if !ok || typeshelper.TypeBarsNilness(binOp.X.Type()) {
-		// not a binary comparison or the type cannot have nil as a value.
-		return nil, nil, nil
+	cond, trueSucc, falseSucc := ifInstr.Cond, b.Succs[0], b.Succs[1]
+	for {
+		binOp, ok := cond.(*ssa.BinOp)
+		if !ok || (binOp.Op != token.EQL && binOp.Op != token.NEQ) {
+			// not an equality or inequality comparison.
+			return nil, nil, nil
+		}
+		// A comparison of a condition with a boolean constant, e.g., `(p == nil) == false`, is the condition itself
+		// (`c == true`, `c != false`), or its negation (`c == false`, `c != true`), i.e., the condition with the
+		// successors exchanged. The SSA builder resolves `!c`, `c1 && c2` and `c1 || c2` into control flow, but not this.
+		if inner, value, ok := comparedWithBoolConst(binOp); ok {
+			if (binOp.Op == token.EQL) != value {
+				trueSucc, falseSucc = falseSucc, trueSucc
+			}
+			cond = inner
+			continue
+		}
+		// Check only one operand is sufficient since the two operands must have the same type.
+		if typeshelper.TypeBarsNilness(binOp.X.Type()) {
+			// the type cannot have nil as a value.
+			return nil, nil, nil
+		}
+		if binOp.Op == token.EQL {
+			return trueSucc, falseSucc, binOp
+		}
+		return falseSucc, trueSucc, binOp
 	}
-	switch binOp.Op {
-	case token.EQL:
-		return b.Succs[0], b.Succs[1], binOp
-	case token.NEQ:
-		return b.Succs[1], b.Succs[0], binOp
+}
+
+// comparedWithBoolConst reports if one operand of the (in)equality comparison binOp is a boolean constant, and returns
+// the other operand and the value of the constant if so.
+func comparedWithBoolConst(binOp *ssa.BinOp) (ssa.Value, bool, bool) {
+	for _, operands := range [...][2]ssa.Value{{binOp.X, binOp.Y}, {binOp.Y, binOp.X}} {
+		if c, ok := operands[1].(*ssa.Const); ok && c.Value != nil && c.Value.Kind() == constant.Bool {
+			return operands[0], constant.BoolVal(c.Value), true
+		}
 	}
-	return nil, nil, nil
+	return nil, false, false
 }
 
 // isVarargsSlice reports if v is the slice the SSA builder creates to pass the variadic arguments of a call
